@@ -250,16 +250,19 @@ def c17_keys(klepto, job):
             _disturb_process_state(klepto, cell['keymap'])
         f = tgt.decorate(keymon.make_deco(case))
         kg = keymon.make_keygen(case)(tgt.plain)
-        keys = []
-        for a, k in cell['calls']:
+        keys = [None] * len(cell['calls'])
+        order = list(range(len(cell['calls'])))
+        rng.shuffle(order)              # the calls are keyed in a different order in every process
+        for ci in order:
+            a, k = cell['calls'][ci]
             a, k = dec(a), dec(k)
             items = list(k.items())
             rng.shuffle(items)          # keyword order differs per process
             k = dict(items)
             try:
-                keys.append([repr(f.key(*a, **k)), repr(kg(*a, **k)), list(k)])
+                keys[ci] = [repr(f.key(*a, **k)), repr(kg(*a, **k)), list(k)]
             except Exception as e:
-                keys.append(['raised ' + type(e).__name__, '', list(k)])
+                keys[ci] = ['raised ' + type(e).__name__, '', list(k)]
         out.append(keys)
     return {'keys': out, 'hashseed': os.environ.get('PYTHONHASHSEED'), 'probe': hash('probe')}
 
@@ -290,17 +293,20 @@ def c17_session(klepto, job):
             kw['maxsize'] = cell.get('maxsize', 3)
             kw['purge'] = bool(cell.get('purge'))
         f = cls(**kw)(fn)
-        res = []
-        orders = []
-        for a, k in cell['calls']:
+        res = [None] * len(cell['calls'])
+        orders = [None] * len(cell['calls'])
+        seq = list(range(len(cell['calls'])))
+        rng.shuffle(seq)                 # each session makes the calls in its own order
+        for ci in seq:
+            a, k = cell['calls'][ci]
             a, k = dec(a), dec(k)
             items = list(k.items())
             rng.shuffle(items)
-            orders.append([n for n, _ in items])
+            orders[ci] = [n for n, _ in items]
             try:
-                res.append(repr(f(*a, **dict(items))))
+                res[ci] = repr(f(*a, **dict(items)))
             except Exception as e:
-                res.append('raised %s: %s' % (type(e).__name__, str(e)[:100]))
+                res[ci] = 'raised %s: %s' % (type(e).__name__, str(e)[:100])
         f.dump()
         i = f.info()
         out.append({'info': [i.hit, i.miss, i.load], 'evals': len(tgt.log), 'results': res, 'orders': orders})
@@ -533,7 +539,7 @@ def check_report(got, want, where, step, bad, mech=()):
 # parent side: C17
 
 STABLE_VALUES = [0, 1, 2, -1, 'a', 'b', '1', 2.5, None, (1,), (1, 2), ('a',), b'a', frozenset([1]), '',
-                 [1, 2], {'k': 1}, 1.0e-09, 'd']
+                 [1, 2], {'k': 1}, 1.0e-09, 'd', 1.0, 2.0, True]
 
 
 DIRECTED_LONG_CELL = {
